@@ -71,3 +71,18 @@ def open_server(conn, address=("server.test", 443), transport=None):
 
 
 crash_bucket = _driver.crash_bucket
+
+
+def _first(t):
+    return t[0]
+
+
+def weighted(*pairs):
+    """one_of with weights.  Hypothesis flattens nested one_of()s and drops repeated strategy objects, so
+    `one_of(a, a, b)` is *not* 2:1; here every alternative is wrapped into a fresh single-branch strategy."""
+    from hypothesis import strategies as st
+    alts = []
+    for w, s in pairs:
+        for _ in range(int(w)):
+            alts.append(st.tuples(s).map(_first))
+    return st.one_of(alts)
